@@ -1247,8 +1247,8 @@ pub fn run(ctx: &Ctx, prop: &'static str) -> Report {
         return rep;
     }
     // ---- small-scope exhaustive -------------------------------------------------------------
-    let depth = ctx.pick(5, 7);
-    let budget: u64 = ctx.pick(400_000, 1_200_000);
+    let depth = ctx.pick(5, 6);
+    let budget: u64 = ctx.pick(400_000, 2_400_000);
     let mut explored = 0u64;
     let mut complete = true;
     let mut index = 0u64;
@@ -1309,7 +1309,7 @@ pub fn run(ctx: &Ctx, prop: &'static str) -> Report {
     rep.extra.insert("small_scope_complete".into(), json!(complete));
     // ---- random long runs -------------------------------------------------------------------
     let mut rng = ctx.rng("mgrx");
-    let n = ctx.pick(24_000, 96_000) / ctx.nshards;
+    let n = ctx.pick(24_000, 240_000) / ctx.nshards;
     for k in 0..n {
         let limits = *rng.pick(LIMIT_CONFIGS);
         let npeers = rng.range(2, 4);
